@@ -23,6 +23,7 @@
 #include "llvm/ADT/SmallVector.h"
 #include "llvm/Support/raw_ostream.h"
 
+#include <algorithm>
 #include <cstdlib>
 #include <vector>
 
@@ -380,6 +381,8 @@ public:
     Command* decl;
     const Token& startTok;
     bool shellEscapeInAndOut;
+    /// The rule variables currently being expanded (innermost last).
+    SmallVector<StringRef, 4> activeRuleVariables{};
   };
   static void lookupBuildParameter(void* userContext, StringRef name,
                                    raw_ostream& result) {
@@ -389,9 +392,7 @@ public:
   void lookupBuildParameterImpl(LookupContext* context, StringRef name,
                                 raw_ostream& result) {
     auto decl = context->decl;
-      
-    // FIXME: Mange recursive lookup? Ninja crashes on it.
-      
+
     // Support "in", "in_newline" and "out".
     if (name == "in" || name == "in_newline") {
       const auto separator = name == "in" ? ' ' : '\n';
@@ -421,11 +422,21 @@ public:
     }
     auto it2 = decl->getRule()->getParameters().find(name);
     if (it2 != decl->getRule()->getParameters().end()) {
+      // A rule variable which (directly or indirectly) refers to itself has no
+      // expansion; diagnose it instead of recursing without bound.
+      auto& active = context->activeRuleVariables;
+      if (std::find(active.begin(), active.end(), name) != active.end()) {
+        error("cycle in rule variables involving '" + name.str() + "'",
+              context->startTok);
+        return;
+      }
+      active.push_back(name);
       evalString(context, it2->second, result, lookupBuildParameter,
                  /*Error=*/ [&](const std::string& msg) {
                    error(msg + " during evaluation of '" + name.str() + "'",
                          context->startTok);
                  });
+      active.pop_back();
       return;
     }
       
